@@ -44,6 +44,13 @@ pub mod stdspec {
     #[verifier::external_body]
     pub broadcast proof fn ax_vec_into_obeys()
         ensures #[trigger] <Vec<f64> as vstd::std_specs::convert::IntoSpec<Vec<f64>>>::obeys_into_spec() {}
-    pub broadcast group ax_vec_from_refl { ax_vec_into_refl, ax_vec_into_obeys }
+    // std: `impl<T, U: Into<T>> TryFrom<U> for T` with the reflexive From (infallible): x.try_into() == Ok(x)
+    #[verifier::external_body]
+    pub broadcast proof fn ax_i32_tryinto_refl(x: i32)
+        ensures #[trigger] <i32 as vstd::std_specs::convert::TryIntoSpec<i32>>::try_into_spec(x) == Ok::<i32, core::convert::Infallible>(x) {}
+    #[verifier::external_body]
+    pub broadcast proof fn ax_i32_tryinto_obeys()
+        ensures #[trigger] <i32 as vstd::std_specs::convert::TryIntoSpec<i32>>::obeys_try_into_spec() {}
+    pub broadcast group ax_vec_from_refl { ax_vec_into_refl, ax_vec_into_obeys, ax_i32_tryinto_refl, ax_i32_tryinto_obeys }
     }
 }
